@@ -253,6 +253,11 @@ def analyse(ck):
             cl = [c for e in smp for c in e.ctrl if c[0] == "closure" or (c[0] == "loop" and P.norm(c[1]) == P.norm(pre_term[1]))]
             if len(smp) == 1 and cl:
                 c_pre = (cl[0][3], None)
+        elif isinstance(pre_term, tuple) and pre_term and pre_term[0] == "take" and (P.call_name(P.norm(pre_term[1])) or "").endswith("repeat_with"):
+            # iter::repeat_with(|| sample()).take(n).collect(): the closure runs once per produced element
+            rw = [e for e in cv.effects if e.frame is cv.fr and e.raw.get("name") == "repeat_with"]
+            if len(rw) == 1:
+                c_pre = (rw[0].bb, None)
         elif isinstance(pre_term, tuple) and pre_term and pre_term[0] == "call" and len(pre_term) == 5:
             pe0 = [e for e in cv.effects if e.frame is cv.fr and e.result is not None and P.norm(e.result) == pre_term]
             if len(pe0) == 1:
@@ -260,10 +265,14 @@ def analyse(ck):
                 pre_callee = prog.bodies.get(pe0[0].raw.get("rid") or pe0[0].raw.get("fid"))
     ob.add({"C15"}, c_pre is not None, "INV", "commit/site/dummy preimages", "the witness fill's per-slot preimages come from one identifiable site in PrivateBatchProver::commit", b.loc(c_pre[0]) if c_pre else cv.loc0,
            T.show(pre_term)[:200] if pre_term is not None else None)
-    pushes = [e for e in cv.effects if e.raw.get("name") == "push" and P.norm(e.args[0]) == cv.param(2)]
-    ob.add({"C15"}, len(pushes) == 1, "INV", "commit/site/padding", "exactly one padding push into the proof vector (found %d)" % len(pushes), pushes[0].loc if pushes else cv.loc0)
-    if all(x is not None for x in (c_len, c_ver, c_compat, c_shuf, c_pre, c_fill)) and len(pushes) == 1:
-        pad = pushes[0]
+    # padding: `count` copies of one value appended to the proof vector, as a push loop or extend(repeat(..).take(count)) — and no other
+    # growth / shrinkage of that vector
+    apps, others = cv.appended_copies(lambda t: t == cv.param(2))
+    resizers = [e for e in others if e.raw.get("name") in ("push", "extend", "insert", "resize", "resize_with", "append", "truncate", "pop", "remove", "swap_remove", "clear", "drain", "retain", "extend_from_slice", "dedup", "split_off")]
+    ob.add({"C15"}, len(apps) == 1 and not resizers, "INV", "commit/site/padding", "exactly one padding append into the proof vector (found %d, other size-changing calls: %s)" % (len(apps), [e.raw.get("name") for e in resizers]),
+           apps[0]["eff"].loc if apps else cv.loc0)
+    if all(x is not None for x in (c_len, c_ver, c_compat, c_shuf, c_pre, c_fill)) and len(apps) == 1 and not resizers:
+        pad = apps[0]["eff"]
         # verify loop over all supplied proofs, unconditional
         ve = [e for e in cv.effects if e.bb == c_ver[0] and e.frame is cv.fr][0]
         lp = circ.loops_of(ve)
@@ -290,12 +299,10 @@ def analyse(ck):
         if hdr:
             ob.add({"C14"}, cv.dom(hdr[0][3], c_compat[0]), "DOM", "commit/verify-loop-before-preflight", "the verification loop header dominates the compatibility preflight and everything after it", b.loc(c_compat[0]))
         # C15: padding
-        lpp = circ.loops_of(pad)
-        r = circ.range_expr(lpp[0]) if len(lpp) == 1 else None
-        cnt = P.norm(r[1]) if r else None
+        cnt = P.ok_value(apps[0]["count"])
         cnt_ok = (cnt is not None and (P.call_name(cnt) or "").endswith("saturating_sub") and P.param_path(cnt[4][0]) == "self.num_leaf_proofs" and P.norm(cnt[4][1]) == ("len", cv.param(2)))
-        val = P.norm(pad.args[1])
-        ob.add({"C15"}, r is not None and P.const_of(r[0]) == 0 and cnt_ok and P.param_path(val) == "self.dummy_proof_template" and not circ.uncond_problems(pad), "TERM", "commit/padding",
+        val = P.norm(apps[0]["value"])
+        ob.add({"C15"}, cnt_ok and P.param_path(val) == "self.dummy_proof_template" and not circ.uncond_problems(pad), "TERM", "commit/padding",
                "padding pushes a clone of self.dummy_proof_template exactly num_leaf_proofs.saturating_sub(len) times, unconditionally", pad.loc, {"count": T.show(cnt)[:120] if cnt else None, "value": T.show(val)[:80]})
         se = [e for e in cv.effects if e.bb == c_shuf[0] and e.frame is cv.fr][0]
         rng = P.norm(se.args[1])
@@ -306,7 +313,9 @@ def analyse(ck):
         ob.add({"C15"}, (se.path or "").startswith("rand::seq::SliceRandom") or "rand::seq" in (se.raw.get("f") or ""), "TERM", "commit/shuffle/impl", "shuffle is rand's SliceRandom::shuffle", se.loc, se.raw.get("f"))
         fe = [e for e in cv.effects if e.bb == c_fill[0] and e.frame is cv.fr][0]
         fa = [P.norm(a) for a in fe.args]
-        if c_pre[1] is None:
+        if c_pre[1] is None and pre_term[0] == "take":
+            cnt_ok = P.norm(pre_term[2]) == ("len", cv.param(2))
+        elif c_pre[1] is None:
             cnt_ok = circ.range_expr(pre_term[1]) is not None and P.norm(circ.range_expr(pre_term[1])[1]) == ("len", cv.param(2))
         else:
             pe = [e for e in cv.effects if e.bb == c_pre[0] and e.frame is cv.fr][0]
@@ -322,9 +331,16 @@ def analyse(ck):
         gv = cv
         rt = pre_term
         want_end = ("len", cv.param(2))
-    okg = isinstance(rt, tuple) and rt and rt[0] == "map" and circ.range_expr(rt[1]) is not None and P.const_of(circ.range_expr(rt[1])[0]) == 0 and P.norm(circ.range_expr(rt[1])[1]) == want_end
-    inner = [e for e in gv.effects if e.raw.get("name") == "generate_random_nullifier_preimage"]
-    okg = okg and len(inner) == 1 and [c for c in inner[0].ctrl if c[0] == "closure" or (c[0] == "loop" and P.norm(c[1]) == P.norm(rt[1]))] != []
+    if isinstance(rt, tuple) and rt and rt[0] == "take" and (P.call_name(P.norm(rt[1])) or "").endswith("repeat_with"):
+        # repeat_with(|| f(sample())).take(n): the closure is evaluated once per element; its value must contain the sample call
+        src = P.norm(rt[1])
+        cr = P.norm(gv.fr.closure_ret(src[4][0], [], site_hint=src[1])) if src[4] and isinstance(src[4][0], tuple) and src[4][0][0] == "closure" else None
+        ns = [s_ for s_ in T.walk(cr) if (P.call_name(s_) or "").endswith("generate_random_nullifier_preimage")] if cr is not None else []
+        okg = P.norm(rt[2]) == want_end and len(ns) == 1
+    else:
+        okg = isinstance(rt, tuple) and rt and rt[0] == "map" and circ.range_expr(rt[1]) is not None and P.const_of(circ.range_expr(rt[1])[0]) == 0 and P.norm(circ.range_expr(rt[1])[1]) == want_end
+        inner = [e for e in gv.effects if e.raw.get("name") == "generate_random_nullifier_preimage"]
+        okg = okg and len(inner) == 1 and [c for c in inner[0].ctrl if c[0] == "closure" or (c[0] == "loop" and P.norm(c[1]) == P.norm(rt[1]))] != []
     ob.add({"C15"}, okg, "TERM", "preimages/one-call-per-slot", "generate_random_nullifier_preimage is called inside the per-slot closure of (0..n_slots).map(..): every slot gets its own sample", gv.loc0, T.show(rt)[:200])
     dv = e2.MethodView(ck, AGG + r"::dummy_proof::generate_random_nullifier_preimage$", AGG)
     rng_calls = [e for e in dv.effects if (e.raw.get("name") in ("thread_rng", "fill_bytes", "gen", "fill", "random", "try_fill_bytes"))]
